@@ -98,7 +98,8 @@ def gen_benign(fn: FuncInfo) -> List[Edit]:
                 e = offs[else_last.end_lineno - 1] + len(lines[else_last.end_lineno - 1].encode("utf-8"))
                 old = srcb[s:e].decode("utf-8")
                 out.append(Edit(rel, s, e, new, "if-swap", q, n.lineno, old))
-        if isinstance(n, ast.Return) and n.value is not None and one_line(n) and not isinstance(n.value, ast.Constant):
+        if isinstance(n, ast.Return) and n.value is not None and one_line(n) and not isinstance(n.value, ast.Constant) \
+                and n.value.lineno == n.lineno and n.value.col_offset > n.col_offset:   # (not a canonicalised `x = E; return x`)
             ind = indent_of(n)
             add(n, "_sa_rv = %s\n%sreturn _sa_rv" % (seg(n.value), ind), "ret-hoist")
         if isinstance(n, ast.Assign) and one_line(n) and len(n.targets) == 1 and not isinstance(n.value, (ast.Tuple, ast.Yield, ast.YieldFrom)):
